@@ -1,7 +1,7 @@
 (* C11 property theorems: StreamWriter output = the in-memory API, spill independence, safe rejection.
    The streamed worksheet is the structured row list the writer emits; reopening is checkSheet/checkRow;
    the XML/zip byte layer is assumed (DESIGN 5.7). *)
-From VF Require Import Base.Prelude Generated.Consts Sheet.Model Sheet.Proofs Sheet.View C11.Model C11.Proofs.
+From VF Require Import Base.Prelude Generated.Consts Sheet.Model Sheet.Proofs Sheet.View C11.Model C11.Proofs C11.Order.
 
 (* For ANY sequence of stream calls (accepted or rejected, rows with gaps, nil cells, any start column, Cell values with
    style and formula, row style option, column styles before the rows): the reopened streamed sheet and the workbook
@@ -33,6 +33,29 @@ Theorem C11_spill_independent : forall chunk ops b,
   bw_contents (fold_left (bw_step chunk) ops b) = bw_contents b ++ writes_of ops.
 Proof. exact bw_spill_independent. Qed.
 Print Assumptions C11_spill_independent.
+
+(* what the writer emits is well-ordered for ANY history of stream calls (accepted or rejected): rows strictly
+   ascending and inside the grid, never beyond the last accepted row; inside each row the cells strictly ascending
+   by column within 1..MaxColumns and carrying the row's number - "rows submitted out of order are rejected" as an
+   invariant of the output *)
+Theorem C11_output_ordered : forall ops,
+  let st := srun ops in
+  gincr r_r 0 (sw_out st) /\
+  forall r, In r (sw_out st) ->
+    1 <= r_r r <= sw_last st /\ r_r r <= TotalRows /\
+    gincr c_col 0 (r_cells r) /\
+    forall c, In c (r_cells r) -> c_row c = r_r r /\ 1 <= c_col c <= MaxColumns.
+Proof.
+  intros ops. cbv zeta. destruct (stream_output_ordered ops) as [H1 H2]. split; [exact H1|].
+  intros r Hr. destruct (H2 r Hr) as (A & B & C). pose proof (stream_rows_in_grid ops r Hr) as [_ D].
+  repeat split; try assumption; try apply A; apply C; assumption.
+Qed.
+Print Assumptions C11_output_ordered.
+
+(* with a positive spill threshold the in-memory buffer is below it after every sync that can create its temp file *)
+Theorem C11_spill_bounds_memory : forall chunk b, 0 < chunk -> Z.of_nat (length (bw_buf (bw_sync chunk true b))) < chunk.
+Proof. exact bw_sync_bound. Qed.
+Print Assumptions C11_spill_bounds_memory.
 
 Example C11_ex :
   let v t s := Some (mkSval 0 [] true t s false) in
